@@ -307,12 +307,15 @@ func c14GenHist(r *vfRand, adv bool, wild bool) c14In {
 		nops = r.Range(10, 60)
 	}
 	pool := []string{} // filters used so far (for unsubscribes and topics)
-	badP := 8           // 1/badP of the filters is malformed
+	badP := 8          // 1/badP of the filters is malformed
 	if adv {
 		badP = 4
 	}
-	filter := func() string {
-		if r.Chance(1, badP) {
+	// messy histories put malformed filters inside multi-filter packets (the shape of
+	// KF-C14-abort-on-malformed); the others only in single-filter packets
+	messy := adv || r.Chance(1, 3)
+	filter := func(multi bool) string {
+		if (messy || !multi) && r.Chance(1, badP) {
 			return c14BadFilter(r)
 		}
 		if len(pool) > 0 && r.Chance(1, 3) {
@@ -330,7 +333,7 @@ func c14GenHist(r *vfRand, adv bool, wild bool) c14In {
 			k := r.PickInt(1, 1, 1, 2, 2, 3)
 			op := c14Op{K: "sub", C: c}
 			for j := 0; j < k; j++ {
-				op.F = append(op.F, filter())
+				op.F = append(op.F, filter(k > 1))
 				op.Q = append(op.Q, r.Intn(3))
 			}
 			in.Ops = append(in.Ops, op)
@@ -340,7 +343,7 @@ func c14GenHist(r *vfRand, adv bool, wild bool) c14In {
 			for j := 0; j < k; j++ {
 				if len(pool) > 0 && r.Chance(3, 4) {
 					op.F = append(op.F, pool[r.Intn(len(pool))])
-				} else if r.Chance(1, 3) {
+				} else if (messy || k == 1) && r.Chance(1, 3) {
 					op.F = append(op.F, c14BadFilter(r))
 				} else {
 					op.F = append(op.F, c14GoodFilter(r))
